@@ -302,13 +302,18 @@ static void enumerate_bases(Visitor visit) {
             d.cls = std::string("L|") + fmt_name(f) + "|tok+tok"; d.base = &b; d.fmt = f; });
       // ... and one reduced-alphabet substitution followed by truncation at every offset
       visit.family = "tok+trunc";
+      // (only offsets behind the start of the substituted token: shorter prefixes equal truncations of the base)
+      std::vector<size_t> tok_off(b.t.size() + 1, 0);
+      for (size_t i = 0; i < b.t.size(); ++i) tok_off[i + 1] = tok_off[i] + render_tok(b.t[i], f).size();
       long long ntt = 0;
-      for (size_t i = 0; i < b.t.size(); ++i) for (size_t a = 0; a < AR[i].size(); ++a)
-        ntt += (long long)(basebytes.size() - render_tok(b.t[i], f).size() + AR[i][a].bytes.size());
+      for (size_t i = 0; i < b.t.size(); ++i) for (size_t a = 0; a < AR[i].size(); ++a) {
+        size_t mbs = basebytes.size() - render_tok(b.t[i], f).size() + AR[i][a].bytes.size();
+        if (mbs > tok_off[i] + 1) ntt += (long long)(mbs - tok_off[i] - 1);
+      }
       if (!visit.skip(ntt))
       for (size_t i = 0; i < b.t.size(); ++i) for (size_t a = 0; a < AR[i].size(); ++a) {
         std::string mb = render(b, f, {{(int)i, (int)a}}, A, AR, true);
-        for (size_t n = 0; n < mb.size(); ++n)
+        for (size_t n = tok_off[i] + 1; n < mb.size(); ++n)
           if (bad[i][a]) visit.pruned(); else
           visit(M_PAIR, [&](InputData &d) { d.bytes = mb.substr(0, n); d.desc = tag + " " + tokdesc((int)i, AR, (int)a) + " + trunc@" + std::to_string(n);
                                             d.cls = std::string("L|") + fmt_name(f) + "|tok+trunc"; d.base = &b; d.fmt = f; });
